@@ -780,7 +780,20 @@ func xfMaskN(calls string) string {
 	return calls[:i+1] + strings.Join(f, ":")
 }
 
+func xfBigLine(line string) bool {
+	f := strings.Fields(line)
+	return len(f) > 1 && strings.HasPrefix(f[1], "32768")
+}
+
+func xfBigBudget(c *lib.Ctx) int {
+	if c.Tier == "thorough" {
+		return 3000
+	}
+	return 150
+}
+
 func (m *xfSeqCompare) compare(c *lib.Ctx, prefix string) {
+	bigBudget := xfBigBudget(c)
 	if len(m.items) == 0 {
 		return
 	}
@@ -790,6 +803,32 @@ func (m *xfSeqCompare) compare(c *lib.Ctx, prefix string) {
 		}
 		return m.items[i].calls < m.items[j].calls
 	})
+	// the model works on byte lists: lines for the 32 KiB packet size cost ~10 ms each, so only an evenly
+	// spaced selection of them is evaluated (bigBudget per run)
+	nbig := 0
+	for _, it := range m.items {
+		if xfBigLine(it.line) {
+			nbig++
+		}
+	}
+	if nbig > bigBudget {
+		var keep []xfSeqLine
+		seen, step := 0, float64(nbig)/float64(bigBudget)
+		next := 0.0
+		for _, it := range m.items {
+			if xfBigLine(it.line) {
+				if float64(seen) >= next {
+					keep = append(keep, it)
+					next += step
+				}
+				seen++
+				continue
+			}
+			keep = append(keep, it)
+		}
+		c.R.Note("%s: %d of %d model lines with mp=32768 evaluated (evenly spaced selection; all %d small-packet lines evaluated)", prefix, bigBudget, nbig, len(m.items)-nbig)
+		m.items = keep
+	}
 	var lines []string
 	for _, it := range m.items {
 		lines = append(lines, it.line)
